@@ -247,10 +247,14 @@ class Scenario:
                 sc.gate.clear()
 
         async def wait_round():
-            try:
-                await asyncio.wait_for(sc.sleeping.wait(), 5.0)
-            except asyncio.TimeoutError:
-                return False
+            # the next round has been reached when the save task sleeps again; when the task is gone (an
+            # exception escaped it) no round will ever come, and waiting out the limit for every later tick of
+            # every scenario would only make the verdict slow
+            deadline = loop.time() + 5.0
+            while not sc.sleeping.is_set():
+                if not sc.armed_async() or loop.time() > deadline:
+                    return False
+                await asyncio.sleep(0.001)
             sc.sleeping.clear()
             return True
 
